@@ -384,8 +384,9 @@ def main():
     norc = getattr(mod, "NORACLE", {"quick": 150, "thorough": 3000})[tier]
     orc = oracle_stage(mod, norc, seed, tier)
     broken = not lean_ok or not corr_ok
-    if broken and not orc["failures"]:
-        log.append("proof or correspondence broken: extended failing-input search")
+    deep = os.environ.get("VERIF_DEEP") == "1"     # self-test: run the extended search on a tree where nothing is broken
+    if (broken or deep) and not orc["failures"]:
+        log.append("proof or correspondence broken: extended failing-input search" if broken else "VERIF_DEEP=1: extended search forced")
         more = oracle_stage(mod, norc * 10, seed + 1000003, tier, tag="search")
         orc["evaluations"] += more["evaluations"]
         orc["distinct_nontrivial"] += more["distinct_nontrivial"]
